@@ -13,6 +13,9 @@ correspondence: (1) names: random (class name, parameter list) through the REAL 
                 WHICH instance's body each module holds (first writer wins), the port order (SV), the always-block order
                 and the instance order of every module; the scanned module table (c13_scan.py) goes through wfModules;
                 (3) labelled aliasing probes (c13_gen.ALIAS_STREAMS);
+                (5) identifiers made by `__`-joining user names and struct type names (c13_mangle.py: witnesses of the Lean
+                collision theorems replayed on the real translators, designs with adversarial user names, pairs of struct types
+                the naming scheme cannot tell apart, class names / string parameters containing the separator);
                 (4) pass runs over SEVERAL translation-enabled sub-trees (c13_gen.multi_subtree: ordinary components,
                 Verilog placeholders, components containing one, the same class twice, explicit_module_name), ONE pass
                 application, against each sub-tree translated alone in a fresh process (direct oracle only, no model).
@@ -31,7 +34,7 @@ import hashlib, importlib, inspect, itertools, json, os, re, subprocess, sys, ti
 
 from ..common import leanio
 from ..common.leanio import InfraError
-from . import c13_gen, c13_scan, c13_worker
+from . import c13_gen, c13_mangle, c13_scan, c13_worker
 
 PID = 'C13'
 DRIVERS = ['names']
@@ -44,7 +47,9 @@ THEOREMS = ['PV.C13.' + t for t in [
   'checked_no_alias', 'checked_error_sound', 'checked_ok_iff_injective',
   'fullName_inj', 'uniqueNameWith_inj', 'uniqueName_inj', 'uniqueName_idShape',
   'uniqueNameR_inj', 'uniqueNameR_idShape', 'uniqueNameR_conservative', 'hasSpecial_not_idShape',
-  'post_perm_invariant', 'post_children_perm', 'portOrder_perm_invariant', 'blockOrder_perm_invariant']]
+  'post_perm_invariant', 'post_children_perm', 'portOrder_perm_invariant', 'blockOrder_perm_invariant',
+  'flatId_inj', 'flatIds_nodup', 'flatCollisions_eq_nil_iff', 'flatCollisions_nil_of_ok', 'flatId_collision_witnesses',
+  'structFullName_inj', 'structName_inj', 'structName_collision_witnesses', 'struct_collision_changes_layout']]
 TRUSTED = [
   'Model/Names.lean follows get_component_full_name, get_component_unique_name, Struct.get_name and the translate_component '
   'walk of RTLIRTranslator.translate; a module body is an opaque value (the text rtlir_tr_component returns)',
@@ -52,6 +57,9 @@ TRUSTED = [
   'it has no collision on the suffixes involved',
   'c13_scan.py: line-oriented scanner of the emitted text (not a Verilog parser); a depth-0 line it does not understand is an '
   'infrastructure error, never skipped',
+  'c13_mangle.comp_paths: which hardware objects of a component get an identifier in the module scope (per backend: list '
+  'wires, packed struct wires, per-element wires of the Yosys backend) is read off the design description by harness glue; '
+  'the model only joins the path of each object (flatId); the set is compared with the identifiers scanned from the text',
   'the classification of a Python construct argument into PVal (int / bool / str / None / Bits / type / bitstruct / other) '
   'and the reading of ports, interfaces, blocks and children off the instance __dict__ are harness glue',
 ]
@@ -62,12 +70,26 @@ ASSUMPTIONS = [
   'generated designs only. The theorems cover the naming / aliasing logic, the table walk, the order functions and the checker.',
   'parameters whose str() is a function of the value (not of the object address); ASCII names',
   'fullName_inj / uniqueName_inj: same class (same ordered parameter names), value images without "__" and not ending in "_"',
+  'flatId_inj / flatIds_nodup: every user name on the paths is okName (not empty, does not start with "_" or a digit, contains '
+  'no "__"; a trailing "_" is allowed); pymtl3 guarantees the first two clauses for hardware objects, the third is the '
+  'user\'s obligation (without it: known finding C13-flattened-identifier-collision)',
+  'structFullName_inj / structName_inj: struct types WITHOUT nested structs (fields are vectors or lists of vectors), class and '
+  'field names okName; with a nested struct Struct.get_full_name is ambiguous even for well-formed names '
+  '(structName_collision_witnesses; known finding C13-struct-name-collision); PARTIAL: nothing is proved about struct types '
+  'with nested structs beyond the witnesses (whether a collision keeps the packed layout is only recorded: histogram '
+  'mangle:collision-layout; struct_collision_changes_layout shows it need not)',
 ]
 RULE = ('names: class name x 0-9 parameters drawn from ints, negative ints, bools, None, strings (identifier-like, with blanks / '
         '<>.[] / other punctuation), Bits values, Bits types, generated bitstruct classes, floats, tuples, lists; a case = one '
         '(class, parameter list); designs: c13_gen (3-8 top-level instances out of 19 templates incl. stdlib, 2-3 levels, shuffled '
         'identifier pool), 9 stdlib/example designs, 19 labelled probe streams (c13_gen.ALIAS_STREAMS: same class name, str() images, long / special / non-identifier / newline-terminated / hash-equal parameters, set_param, bitstruct subclass, same-named structs, nested collisions, placeholder child with explicit_module_name, sibling-internal structs, object repr); a case = (design, backend); non-trivial = '
-        'the design has >= 2 instances sharing a module name or >= 3 modules; distinct = distinct source text')
+        'the design has >= 2 instances sharing a module name or >= 3 modules; distinct = distinct source text; '
+        'mangle streams (c13_mangle.py): 3 + 6 literal witnesses of the Lean collision theorems; flat designs (half with names from '
+        'an adversarial pool incl. two different splittings of one "__"-joined identifier planted as child.port / interface.port / '
+        'port / child.interface.port, half well-formed) with ports, port lists, struct ports, wires, nested interfaces, interface '
+        'lists, children and child lists; the well-formed half plants near misses (names a single "_" separator would confuse, a list x '
+        'next to x_0); pairs of struct types (7 planted collision kinds and 9 near-miss kinds, each in every run, plus random '
+        'well-formed flat / nested types); 2 component-name designs; non-trivial = a collision or >= 8 identifiers')
 
 REPO = os.environ.get('PV_REPO', '/repo')     # tools/try_seed.sh points the checks at a scratch worktree
 # which name function of Model/Names.lean the real get_component_unique_name is compared with:
@@ -904,6 +926,7 @@ def run(ck):
   seeds = range(3) if quick else range(12)
   identifier_stream(ck, 600 if quick else 12000)
   names_stream(ck, 1200 if quick else 40000)
+  c13_mangle.run_stream(ck, ask_hashed, blake)
   uid = [0]
   def nxt():
     uid[0] += 1
@@ -933,6 +956,8 @@ def replay(ck, data):
   setup(ck)
   case = data.get('case') or {}
   print(json.dumps({'kind': data.get('kind'), 'signature': data.get('signature')}, indent=1))
+  if str(case.get('stream', '')).startswith(c13_mangle.STREAM_PREFIXES):
+    return c13_mangle.replay_case(ck, case, ask_hashed, blake)
   if 'source' not in case:
     print('case  :', json.dumps(case, default=str)[:2000])
     print('detail:', json.dumps(data.get('detail'), default=str)[:2000])
